@@ -759,6 +759,21 @@ func c02Structural(file []byte) (names []string, files [][]byte) {
 		variant("halve "+t, sc, func(m map[string][]byte) { m[t] = m[t][:len(m[t])/2] })
 		variant("extend "+t+" by 10 bytes", sc, func(m map[string][]byte) { m[t] = append(append([]byte{}, m[t]...), 0, 1, 0, 2, 0, 3, 0, 4, 0, 5) })
 	}
+	// every table empty; only one table, which is empty
+	variant("empty every table", sc, func(m map[string][]byte) {
+		for t := range m {
+			m[t] = []byte{}
+		}
+	})
+	for _, t := range tags {
+		t := t
+		variant("only "+t+", empty", sc, func(m map[string][]byte) {
+			for u := range m {
+				delete(m, u)
+			}
+			m[t] = []byte{}
+		})
+	}
 	// one table removed and another one of a different size: the tables that cross-check each other's
 	// counts (maxp, hhea/hmtx, loca, post, CFF) get out of step in pairs
 	coupled := map[string]bool{"maxp": true, "hhea": true, "hmtx": true, "head": true, "loca": true, "post": true, "CFF ": true, "glyf": true}
@@ -976,7 +991,7 @@ func c02StructuralPart(r *run.Run, seeds []*c02Seed, bound int) {
 	}
 	hdr := c02TableSeed("header.Read", "", nil)
 	r.ExploreSharded(explore.Config{Name: "C02.structural", Bound: bound, Deadline: r.PartDeadline(0.3)},
-		fmt.Sprintf("%d whole fonts x %d structural deviations of the table directory (a byte alphabet never yields another valid tag): every table removed, emptied, halved, extended; every pair of tables removed; one of the tables {maxp, hhea, hmtx, head, loca, glyf, post, CFF} removed and another one of them extended or halved; the content of every table under every other tag; scaler types exchanged; x (nothing | within the deviation bound: one further single-field deviation inside the first 12+16*numTables bytes); sfnt.Read and header.Read", len(all), total), c02Procs, c02Mem,
+		fmt.Sprintf("%d whole fonts x %d structural deviations of the table directory (a byte alphabet never yields another valid tag): every table removed, emptied, halved, extended; all tables emptied; a single empty table; every pair of tables removed; one of the tables {maxp, hhea, hmtx, head, loca, glyf, post, CFF} removed and another one of them extended or halved; the content of every table under every other tag; scaler types exchanged; x (nothing | within the deviation bound: one further single-field deviation inside the first 12+16*numTables bytes); sfnt.Read and header.Read", len(all), total), c02Procs, c02Mem,
 		func(c *explore.Ctx) {
 			fi := c.Choose(len(all), "font")
 			v := all[fi]
